@@ -49,26 +49,30 @@ fn lsp_sets(order: usize, full_upto: usize) -> Vec<Vec<f64>> {
     sets
 }
 
-fn response(order: usize, stage: usize, log_gain: bool, alpha: f64, beta: f64, params: &[f64], max_rate: usize) -> Result<(Vec<f64>, usize, f64), String> {
+/// returns the pulse responses of the first and of the second (stationary) frame
+fn response(order: usize, stage: usize, log_gain: bool, alpha: f64, beta: f64, params: &[f64], max_rate: usize) -> Result<(Vec<f64>, usize, f64, Vec<f64>), String> {
     let mut rate = 8000usize;
     loop {
         let t0 = rate / 20;
         let p = params.to_vec();
-        let buf = catch(move || {
+        let (buf, buf2) = catch(move || {
             let mut v = Vocoder::new(order + 1, 0, stage, log_gain, rate, alpha, beta, 1.0, t0);
             let mut buf = vec![0.0; t0];
             v.synthesize(20f64.ln(), &p, &[], &mut buf);
-            buf
+            let mut buf2 = vec![0.0; t0];
+            v.synthesize(20f64.ln(), &p, &[], &mut buf2);
+            (buf, buf2)
         })?;
         let s = (t0 as f64).sqrt();
         let h: Vec<f64> = buf[..t0 - 2].iter().map(|x| x / s).collect();
-        if h.iter().any(|x| !x.is_finite()) {
-            return Ok((h, rate, f64::NAN));
+        let h2: Vec<f64> = buf2[..t0 - 2].iter().map(|x| x / s).collect();
+        if h.iter().chain(h2.iter()).any(|x| !x.is_finite()) {
+            return Ok((h, rate, f64::NAN, h2));
         }
         let peak = h.iter().fold(0.0f64, |a, b| a.max(b.abs()));
         let tail = h[h.len() - h.len() / 20..].iter().fold(0.0f64, |a, b| a.max(b.abs())) / peak.max(1e-300);
         if tail < 1e-9 || rate >= max_rate {
-            return Ok((h, rate, tail));
+            return Ok((h, rate, tail, h2));
         }
         rate *= 4;
     }
@@ -77,11 +81,11 @@ fn response(order: usize, stage: usize, log_gain: bool, alpha: f64, beta: f64, p
 pub fn run(tier: Tier) -> i32 {
     let rep = Report::new("C13", tier, "model_checking");
     let nfreq = tier.pick(33usize, 129usize);
-    let full_upto = tier.pick(3usize, 5usize);
+    let full_upto = tier.pick(4usize, 6usize);
     let orders: Vec<usize> = tier.pick((2..=24).filter(|o| *o <= 8 || o % 4 == 0 || *o == 23).collect(), (2..=24).collect());
     let stages: &[usize] = &[1, 2, 3, 4];
     let alphas = [0.0, 0.3, 0.6];
-    rep.set_rule("SCOPE: LSP orders x stages 1..4 x alpha {0,.3,.6} x {linear, log} gain x K {0.5,1,2}; LSP sets = all compositions of the order+1 gaps from {1,2,4} units (orders up to the full bound) or uniform + every single gap narrowed/widened (larger orders), all with spacing >= pi/(4(order+1)); real Vocoder pulse response at F0=20Hz; oracle ln K - s ln|A(e^{jw~})| within 0.001 Np at grid frequencies within 100 dB of the peak, response finite and decaying; distinct = (order, stage, alpha, gain form, K, LSP set)");
+    rep.set_rule("SCOPE: LSP orders x stages 1..4 x alpha {0,.3,.6} x {linear, log} gain x K {0.5,1,2}; LSP sets = all compositions of the order+1 gaps from {1,2,4} units (orders up to the full bound) or uniform + every single gap narrowed/widened (larger orders), all with spacing >= pi/(4(order+1)); real Vocoder pulse responses of the first and the second frame at F0=20Hz; oracle ln K - s ln|A(e^{jw~})| within 0.001 Np at grid frequencies within 100 dB of the peak, response finite and decaying; distinct = (order, stage, alpha, gain form, K, LSP set)");
     rep.assume("LSP sets on the gap lattice only; nominal rate raised (8k..8M) only to lengthen T0 until the truncated tail is < 1e-9 of the peak");
     let mut cases: Vec<(usize, usize, f64, bool, f64, Vec<f64>)> = Vec::new();
     for &order in &orders {
@@ -104,7 +108,7 @@ pub fn run(tier: Tier) -> i32 {
     }
     let worst = Mutex::new((0.0f64, String::new()));
     let grid = freq_grid(nfreq);
-    par_for(cases.len(), 2, |i| {
+    rep.par_for(cases.len(), 2, "C13 part 1", |i| {
         let (order, stage, alpha, lg, k, set) = &cases[i];
         let mut params = vec![if *lg { k.ln() } else { *k }];
         params.extend(set.iter());
@@ -113,7 +117,7 @@ pub fn run(tier: Tier) -> i32 {
         let rp = json!({"order": order, "stage": stage, "alpha": alpha, "log_gain": lg, "params_gain_then_lsp": params, "f0_hz": 20});
         match response(*order, *stage, *lg, *alpha, 0.0, &params, 8_000_000) {
             Err(p) => rep.violation(format!("panic@{}", site_of(&p)), p, rp),
-            Ok((h, _rate, tail)) => {
+            Ok((h, _rate, tail, h2)) => {
                 if tail.is_nan() {
                     rep.violation("diverges", format!("response to well-separated increasing LSPs is not finite (order {}, stage {}, alpha {})", order, stage, alpha), rp);
                     return;
@@ -135,8 +139,10 @@ pub fn run(tier: Tier) -> i32 {
                     if *wnt < peak - 100.0 * std::f64::consts::LN_10 / 20.0 {
                         continue;
                     }
-                    rep.cmp(1);
+                    rep.cmp(2);
                     err = err.max((logmag(&h, *w) - wnt).abs());
+                    // the second frame is the stationary regime (coefficients no longer interpolated from the first call's)
+                    err = err.max((logmag(&h2, *w) - wnt).abs());
                 }
                 {
                     let mut wo = worst.lock().unwrap();
